@@ -62,7 +62,7 @@ def run_case(case):
     return now
 
   def on_step(s):
-    if not s.reply.ok:
+    if not s.reply.ok or s.uas == [['Calculate']]:     # (the settling Calculate after a failed bundle is not undone)
       return None
     undo = s.reply.undo
     log_pos = s.log_pos
